@@ -21,16 +21,38 @@ def run_jit(chk, limit=None):
         kernels = sorted(kernels[:limit], key=lambda k: (k["module"], k["name"]))
     os.makedirs(common.SCRATCH, exist_ok=True)
     spec = os.path.join(common.SCRATCH, "jit_spec_%d.json" % os.getpid())
-    json.dump(dict(kernels=kernels, points=POINTS, args=ARGS), open(spec, "w"))
+    json.dump(dict(kernels=kernels, points=POINTS, args=ARGS, special_points=[-1.0, -0.6, -0.2, 0.05, 0.3, 0.5, 0.55, 0.7, 0.85, 0.99, 1.0]), open(spec, "w"))
     res = {}
     for mode, env in (("py", dict(NUMBA_DISABLE_JIT="1")), ("jit", dict(NUMBA_DISABLE_JIT="0", NUMBA_BOUNDSCHECK="1"))):
-        e = dict(os.environ); e.update(env); e["NUMBA_CACHE_DIR"] = os.path.join(common.SCRATCH, "numba"); e["VERIF_REPO"] = common.REPO
+        # a fresh numba cache: the on-disk cache does not notice changes in callees defined in other files
+        cache_dir = os.path.join(common.SCRATCH, "numba_jit_%d" % os.getpid())
+        e = dict(os.environ); e.update(env); e["NUMBA_CACHE_DIR"] = cache_dir; e["VERIF_REPO"] = common.REPO
         p = subprocess.run([sys.executable, os.path.join(common.VERIF, "tools", "corr", "jit_eval.py"), spec], capture_output=True, text=True, env=e, timeout=3000)
         if p.returncode != 0:
             raise RuntimeError("jit_eval failed in mode %s: %s" % (mode, p.stderr[-1500:]))
         res[mode] = json.loads(p.stdout)
+        import shutil
+        shutil.rmtree(cache_dir, ignore_errors=True)
     os.remove(spec)
     bad, worst = [], 0.0
+    nspecial = 0
+    for key in sorted(k_ for k_ in res["py"] if k_.startswith("special")):
+        a, b = res["py"][key], res["jit"].get(key)
+        if isinstance(a, str) or isinstance(b, str) or b is None:
+            if a != b:
+                bad.append(dict(kernel=key, python=a, jit=b))
+            continue
+        for i, (x, y) in enumerate(zip(a, b)):
+            nspecial += 1
+            xs = x if isinstance(x, list) else [x]
+            ys = y if isinstance(y, list) else [y]
+            if isinstance(x, str) or isinstance(y, str):
+                if x != y:
+                    bad.append(dict(kernel=key, point=i, python=x, jit=y))
+                continue
+            d = max(abs(u - v) / max(1.0, abs(u)) for u, v in zip(xs, ys))
+            if not d <= 1e-9:
+                bad.append(dict(kernel=key, point=i, python=x, jit=y, rel=d))
     for k in kernels:
         key = k["module"] + "." + k["name"]
         a, b = res["py"][key], res["jit"][key]
@@ -49,7 +71,7 @@ def run_jit(chk, limit=None):
             worst = max(worst, d if d == d else 1.0)
             if not d <= 1e-9:
                 bad.append(dict(kernel=key, z=z, python=x, jit=y, rel=d))
-    chk.corr["jit_vs_interpreter"] = dict(cases=len(kernels) * len(POINTS), kernels=len(kernels), disagreements=len(bad), worst_rel=worst,
+    chk.corr["jit_vs_interpreter"] = dict(cases=len(kernels) * len(POINTS) + nspecial, kernels=len(kernels), special_function_evaluations=nspecial, disagreements=len(bad), worst_rel=worst,
                                           distinct_nontrivial=len(kernels),
                                           rule="every translated njit kernel evaluated at %s with args %s by the interpreter (NUMBA_DISABLE_JIT=1) and by the compiled code "
                                                "(NUMBA_BOUNDSCHECK=1) in separate processes; relative difference <= 1e-9; exceptions must coincide" % (POINTS, ARGS))
